@@ -141,7 +141,7 @@ func (c C17Config) jsonFile() string {
 	return string(b)
 }
 
-var c17Patterns = []string{"lib/", "src/", "src/syn.lua", "lib/misc.lua", "src/un.*lua", "lib/i.*\\.lua", "ok.lua", "src/a", "ext/", "third(party)/", "lua+ext/b.lua", "third(party)/a.lua", "lua+ext/"}
+var c17Patterns = []string{"lib/", "src/", "src/syn.lua", "lib/misc.lua", "src/un.*lua", "lib/i.*\\.lua", "ok.lua", "src/a", "ext/", "third(party)/", "lua+ext/b.lua", "third(party)/a.lua", "lua+ext/", "src/un.ef.lua", "lib.misc"}
 
 // importTargetIgnored: an error-ignore rule of the configuration matches the module that
 // src/t11.lua imports.  The server then also drops the importer's type-11 diagnostics about that
@@ -207,7 +207,7 @@ func randC17Config(r *rand.Rand, jsonMode bool) C17Config {
 					ts = append(ts, t)
 				}
 			}
-			c.FileTypes[[]string{"src/undef.lua", "lib/misc.lua", "lib/", "src/a.*lua"}[r.Intn(4)]] = ts
+			c.FileTypes[[]string{"src/undef.lua", "lib/misc.lua", "lib/", "src/a.*lua", "src/un.ef.lua", "lib.misc"}[r.Intn(6)]] = ts
 		}
 	}
 	return c
